@@ -15,7 +15,7 @@ SOLVE_T.update({"consistency_alg_idx": "int", "decision_domains": "u16[K]", "var
                 "dom_heuristic_idx": "int", "dom_heuristic_params": "opaque", "compute_domains_addrs": "opaque", "consistency_alg_addrs": "opaque",
                 "var_heuristic_addrs": "opaque", "dom_heuristic_addrs": "opaque"})
 LEVELS_NONEMPTY = ("wf.levels_nonempty", "forall(l, 0, stacks_top[0] + 1, forall(d, 0, D, shr_domains_stack[l, d, MIN] <= shr_domains_stack[l, d, MAX]))")
-ALL_DECISION = ("C02.all_decision", "forall(d, 0, D, exists(k, 0, K, decision_domains[k] == d))")
+ALL_DECISION = ("C02.all_decision", "forall(d, 0, D, exists(k, 0, K, decision_domains[k] == trig(d)))")
 CH, BT, SOL, DEPTH = "STATS_IDX_SOLVER_CHOICE_NB", "STATS_IDX_SOLVER_BACKTRACK_NB", "STATS_IDX_SOLVER_SOLUTION_NB", "STATS_IDX_SOLVER_CHOICE_DEPTH"
 
 # the level holding the ghost solution sigma (witness of 'sigma is still in the stack'), re-chosen after every iteration
